@@ -66,6 +66,7 @@ var guardedTable = []guardedField{
 	{"pkg/machine", "Subscriptions", "whenQueryCtx", "Mx", false, "subscription index"},
 	{"pkg/machine", "Subscriptions", "whenQueueEnds", "Mx", false, "subscription index"},
 	{"pkg/machine", "Subscriptions", "whenQueue", "Mx", false, "subscription index"},
+	{"pkg/machine", "Subscriptions", "queueTickDone", "Mx", false, "recorded by ProcessWhenQueue, read by WhenQueue"},
 	{"pkg/machine", "semLogger", "pipes", "pipesMx", false, "pipe log registry"},
 	{"pkg/rpc", "NetworkMachine", "machTime", "clockMx", false, "updated by updateClock from the RPC goroutine"},
 	{"pkg/rpc", "NetworkMachine", "machClock", "clockMx", false, "updated by updateClock"},
